@@ -36,6 +36,9 @@ pub enum Kind {
     ExpiredFdtInstances,
     /// many objects that lose a symbol but whose close-object packet arrives (they end interrupted)
     InterruptedObjects,
+    /// Reed-Solomon under-specified (scheme 129) packets whose Source Block Length field announces blocks much
+    /// larger than the OTI maximum, never decodable: what is allocated is what the packets announce
+    LyingBlockLength,
 }
 
 #[derive(Clone, Debug, PartialEq, Serialize, Deserialize)]
@@ -70,8 +73,9 @@ pub fn gen(idx: u64, rng: &mut Rng, tier: Tier) -> Scn {
         Kind::StalledWithFdtUpdates,
         Kind::ExpiredFdtInstances,
         Kind::InterruptedObjects,
+        Kind::LyingBlockLength,
     ];
-    let kind = kinds[(idx % 10) as usize];
+    let kind = kinds[(idx % 11) as usize];
     let cache = *rng.pick(&[1024usize, 4096, 16 * 1024, 64 * 1024, if tier == Tier::Thorough { 1024 * 1024 } else { 32 * 1024 }]);
     let scheme = match kind {
         Kind::MissingSymbol | Kind::StalledWithFdtUpdates | Kind::InterruptedObjects => Scheme::NoCode,
@@ -232,6 +236,33 @@ pub fn run(scn: &Scn, ctx: &Ctx, scratch: &Path) {
             }
             block_bytes = 4 * e;
         }
+        Kind::LyingBlockLength => {
+            // announced blocks of `sbl` symbols (OTI maximum: 4), `sbl - 2` of them sent: never decodable
+            let sbl = 60u32;
+            let n_blocks = (scn.factor as usize * scn.cache) / (sbl as usize * e) + 6;
+            for sbn in 0..n_blocks as u32 {
+                for esi in 0..(sbl - 2) {
+                    let (tl, ol) = wire::field_lens(1, 1);
+                    traffic.push(wire::encode(&Build {
+                        cci_words: 1,
+                        tsi: 1,
+                        tsi_len: tl,
+                        toi: 1,
+                        toi_len: ol,
+                        cp: wire::FEC_RS28US,
+                        fti: Some(Fti { fec: wire::FEC_RS28US, transfer_length: (n_blocks * 4 * e) as u64, e: e as u32, b: Some(4), max_n: Some(6), instance_id: Some(0), z: None, n: None, al: None }),
+                        sbn,
+                        esi,
+                        sbl,
+                        payload: vec![0x44; e],
+                        ..Default::default()
+                    }));
+                    sbns.push(sbn);
+                }
+            }
+            pkt_len = traffic[0].len();
+            block_bytes = sbl as usize * e;
+        }
         Kind::InterruptedObjects => {
             let mut spec = SenderSpec::basic(OtiSpec::new(Scheme::NoCode, 1400, 64, 0, true));
             spec.interleave = 1;
@@ -317,7 +348,7 @@ pub fn run(scn: &Scn, ctx: &Ctx, scratch: &Path) {
                         );
                     }
                 }
-                Kind::NoFdtInband | Kind::MissingSymbol => {
+                Kind::NoFdtInband | Kind::MissingSymbol | Kind::LyingBlockLength => {
                     // a new block is refused once two blocks are allocated and the total would exceed the limit
                     let allowed = (scn.cache / block_bytes.max(1)).max(2) + 1;
                     if blocks_touched.len() > allowed + 1 {
@@ -386,9 +417,10 @@ pub fn run(scn: &Scn, ctx: &Ctx, scratch: &Path) {
         Kind::ManySessions => "inject-many-sessions",
         Kind::ExpiredFdtInstances => "inject-expired-fdt-instances",
         Kind::InterruptedObjects => "drop-class-first-symbol-keep-close-object",
+        Kind::LyingBlockLength => "inject-lying-source-block-length",
     });
     match scn.kind {
-        Kind::NoFdtInband | Kind::NoFdtCached | Kind::MissingSymbol | Kind::NoFdtCachedTinyPayload => {
+        Kind::NoFdtInband | Kind::NoFdtCached | Kind::MissingSymbol | Kind::NoFdtCachedTinyPayload | Kind::LyingBlockLength => {
             let volume: usize = traffic.iter().map(|b| b.len()).sum();
             ctx.borrow_mut().note(&format!("held/bound-decile:{:?}:{}", scn.kind, (worst_growth * 10 / one_object_bound.max(1)).min(99)));
             if worst_growth > one_object_bound {
@@ -399,6 +431,7 @@ pub fn run(scn: &Scn, ctx: &Ctx, scratch: &Path) {
                         Kind::NoFdtCached => "packet-cache",
                         Kind::NoFdtCachedTinyPayload => "packet-cache-tiny-payload",
                         Kind::NoFdtInband => "decoded-blocks-without-fdt",
+                        Kind::LyingBlockLength => "blocks-announced-by-the-packets",
                         _ => "incomplete-blocks",
                     },
                     format!(
@@ -408,7 +441,7 @@ pub fn run(scn: &Scn, ctx: &Ctx, scratch: &Path) {
                 );
             }
             // beyond the limit the object is abandoned and, when the list has room, counted in error
-            if volume > 4 * scn.cache + 8 * block_bytes && scn.kind != Kind::MissingSymbol {
+            if volume > 4 * scn.cache + 8 * block_bytes && scn.kind != Kind::MissingSymbol && scn.kind != Kind::LyingBlockLength {
                 if !abandoned {
                     violate(
                         ctx,
